@@ -125,6 +125,55 @@ def run(rep, tier):
                 owners.add(p)
     rep.ob(rf, "owners", owners == {im.fn}, "functions with raw memory primitives reachable from the interpreter entry",
            expected=[im.fn], found=sorted(owners))
+    # R02.g the regions handed to the bounds check, and how allowed ranges get registered
+    rg = rep.rule("R02.g", "every bounds check is handed the four regions themselves (metadata buffer, packet, the whole stack, the registered ranges); registering a range stores it unchanged", floor=5)
+    bad, nchk = [], 0
+    for v, d in sorted(isa.TABLE.items()):
+        for p in im.per_opcode(v):
+            derefs = {}
+            for e in p["effects"]:
+                if e[0] == "call" and isinstance(e[1], str) and e[1].endswith("Deref>::deref") and len(e) > 3:
+                    derefs[e[3]] = e[2][0]
+                if e[0] == "call" and isinstance(e[1], str) and e[1].endswith("Index<I>>::index") and len(e) > 3 and "RangeFull" in repr(e[2][1])[:80]:
+                    derefs[e[3]] = derefs.get(e[2][0], e[2][0])
+                if e[0] == "call" and e[1] == im.bc:
+                    nchk += 1
+                    a = e[2]
+                    regs = list(a[4:8]) if len(a) >= 8 else []
+                    want = [("MBUFF",), ("MEM",), ("STACK",), ("ALLOWED",)]
+                    got = []
+                    for x in regs:
+                        x = derefs.get(x, x)
+                        got.append((x[1],) if isinstance(x, tuple) and len(x) == 3 and x[0] == "obj" else ("?",))
+                    if got != want:
+                        bad.append("opc=%#04x: regions %s" % (v, [g[0] for g in got]))
+    rep.ob(rg, "call-sites", nchk >= 20 and not bad, "region arguments at the %d bounds-check call sites evaluated" % nchk,
+           expected="(mbuff, mem, &stack[..], allowed_memory)", found=sorted(set(bad))[:4] or "all")
+    import props.c10 as c10
+    F = cx.F
+    for kind in c10.KINDS:
+        path = kind + "::register_allowed_memory"
+        fn = F.fns.get(path)
+        if not fn:
+            rep.ob(rg, path, False, "%s exists" % path, found="missing")
+            continue
+        ev = symex.Evaluator(F, opaque_calls=lambda q: q.endswith("::register_allowed_memory") and q != path)
+        arg = ev.sym_for("new_range", fn["thir"]["params"][1]["ty"])
+        key, sv, outs = c10.run_method(ev, F, path, [arg])
+        ok = len(outs) == 1
+        found = "%d paths" % len(outs)
+        if ok:
+            calls = [e for e in outs[0][1].effects if e[0] == "call" and isinstance(e[1], str)]
+            ins = [e for e in calls if e[1].endswith("HashSet<T, S, A>::insert")]
+            dele = [e for e in calls if e[1].endswith("::register_allowed_memory")]
+            if ins:
+                ok = len(ins) == 1 and "allowed_memory" in repr(ins[0][2][0]) and ins[0][2][1] == arg and not dele
+                found = "insert(%s)" % ("argument" if ins[0][2][1] == arg else repr(ins[0][2][1])[:80])
+            else:
+                ok = len(dele) == 1 and "'parent'" in repr(dele[0][2][0]) and dele[0][2][1] == arg
+                found = "delegates with %s" % ("the argument" if dele and dele[0][2][1] == arg else "something else")
+        rep.ob(rg, path, ok, "%s" % path, expected="allowed_memory.insert(range) with the caller's range, or delegation with it", found=found)
+
     rep.trust("rustc front end / typed THIR", "slices' as_ptr/len describe live memory", "registered ranges are valid memory (caller's contract)")
     rep.assume("a fault on a checked address is outside the claim (C05 covers panics)")
 
